@@ -445,13 +445,45 @@ def run(rep: core.Report):
     shared_alias.run(rep, "R15f", ["phonopy/structure/symmetry.py", "phonopy/harmonic/force_constants.py", "phonopy/harmonic/dynamical_matrix.py", "phonopy/structure/atoms.py", "phonopy/structure/cells.py"])
     from rules import shared_freshwrite
 
+    _r15h(rep)
     shared_freshwrite.run(rep, "R15g", ["phonopy/harmonic/dynamical_matrix.py", "phonopy/phonon/group_velocity.py", "phonopy/harmonic/derivative_dynmat.py"], 2)
+
+
+def _r15h(rep):
+    """Constructor configuration is changed by user actions only, never by the internal rebuild of derived objects."""
+    rep.rule("R15h", "configuration of the Phonopy object (attributes assigned directly from a constructor parameter: NAC parameters, symmetry tolerance, unit factor, group-velocity step, ...) is reassigned only by public methods and property setters -- a user action -- and never by a private method that rebuilds derived objects: a value written back from a derived object (the finite-difference step a Gonze-Lee group-velocity object chose for itself) would outlive the state that produced it and reach later rebuilds, copy() and ph2ph", 10)
+    API_ = "phonopy/api_phonopy.py"
+    cls = core.find_def(API_, "Phonopy")
+    init = next((n for n in cls.body if isinstance(n, ast.FunctionDef) and n.name == "__init__"), None)
+    if init is None:
+        raise AnalysisError("R15h: Phonopy.__init__ vanished")
+    params = {a.arg for a in init.args.args + init.args.kwonlyargs}
+    conf = {}
+    for st in init.body:
+        if isinstance(st, ast.Assign) and len(st.targets) == 1 and isinstance(st.targets[0], ast.Attribute) and core.src(st.targets[0].value) == "self" and isinstance(st.value, ast.Name) and st.value.id in params:
+            conf[st.targets[0].attr] = st.value.id
+    if len(conf) < 8:
+        raise AnalysisError(f"R15h: only {len(conf)} configuration attributes found in Phonopy.__init__")
+    writers = {a: [] for a in conf}
+    for m in [n for n in cls.body if isinstance(n, ast.FunctionDef) and n.name != "__init__"]:
+        for st in ast.walk(m):
+            tgts = st.targets if isinstance(st, ast.Assign) else ([st.target] if isinstance(st, (ast.AugAssign, ast.AnnAssign)) else [])
+            for t in tgts:
+                for y in (t.elts if isinstance(t, ast.Tuple) else [t]):
+                    if isinstance(y, ast.Attribute) and core.src(y.value) == "self" and y.attr in conf:
+                        writers[y.attr].append((m, st))
+    for attr, par in sorted(conf.items()):
+        bad = [(m, st) for m, st in writers[attr] if m.name.startswith("_") and not any(core.src(d).endswith(".setter") for d in m.decorator_list)]
+        shown = sorted({m.name for m, _ in writers[attr]}) or ["-"]
+        rep.instance("R15h", API_, "Phonopy", f"self.{attr} (constructor parameter {par}): reassigned by {shown}", not bad,
+                     f"the private method {bad[0][0].name if bad else ''} assigns the configuration attribute self.{attr} ('{core.norm(core.src(bad[0][1]), 70) if bad else ''}'): a value derived from the current state replaces what the user configured and stays when the state changes; an object that went through that state differs from a fresh one with the same final state", line=bad[0][1].lineno if bad else init.lineno)
 
 
 def selftest():
     V = []
     b = lambda name, file, old, new, rule, expect="", **kw: V.append(dict(name=name, kind="break", file=file, old=old, new=new, rule=rule, expect=expect, **kw))
     n = lambda name, file, old, new, **kw: V.append(dict(name=name, kind="neutral", file=file, old=old, new=new, **kw))
+    b("group-velocity step written back by the rebuild", "phonopy/api_phonopy.py", "        self._group_velocity = GroupVelocity(\n            self._dynamical_matrix,\n            q_length=self._gv_delta_q,\n            symmetry=self._primitive_symmetry,\n            frequency_factor_to_THz=self._factor,\n        )\n", "        self._group_velocity = GroupVelocity(\n            self._dynamical_matrix,\n            q_length=self._gv_delta_q,\n            symmetry=self._primitive_symmetry,\n            frequency_factor_to_THz=self._factor,\n        )\n        if self._gv_delta_q is None:\n            self._gv_delta_q = self._group_velocity.q_length\n", "R15h", "_gv_delta_q")
     b("nac_params setter forgets the rebuild", API, "        self._nac_params = nac_params\n        if self._force_constants is not None:\n            self._set_dynamical_matrix()", "        self._nac_params = nac_params", "R15a", "nac_params")
     b("masses setter forgets the rebuild", API, "        self._unitcell.set_masses(u_masses)\n        if self._force_constants is not None:\n            self._set_dynamical_matrix()", "        self._unitcell.set_masses(u_masses)", "R15a", "masses")
     b("cutoff radius: rebuild only when logging", API, "            symprec=self._symprec,\n        )\n        if self._primitive.masses is not None:\n            self._set_dynamical_matrix()\n\n    @property\n    def supercell_energies", "            symprec=self._symprec,\n        )\n        if self._log_level:\n            self._set_dynamical_matrix()\n\n    @property\n    def supercell_energies", "R15a", "set_force_constants_zero_with_radius")
